@@ -274,9 +274,11 @@ class RAMEmitter(Emitter):
             returned_data = {}
             for t, data in self.saved_data.items():
                 paths_data = []
+                missing = object()
                 for path in query:
-                    datum = get_in(data, path)
-                    if datum is not None:
+                    # (None is a value like any other once it is emitted)
+                    datum = get_in(data, path, missing)
+                    if datum is not missing:
                         path_data = (path, datum)
                         paths_data.append(path_data)
                 returned_data[t] = paths_to_dict(paths_data)
